@@ -485,14 +485,13 @@ func C19Worker(state string, from, to int, thorough bool) {
 }
 
 func runC19(r *mc.Run) {
-	r.Rule = "for three reachable states (fresh; busy: voted hashes, deposits, pending/processing/cancelling withdrawals, pending voter; a voter removal already queued): every single wire-level mutation (drop, duplicate, boundary integers, empty / +1 / -1 / bit-flipped / 33-byte / 1-byte strings, recursively two levels deep) of a well-formed instance of every relayer and bridge message, correctly signed so that it reaches the handler; vote bitmaps of every length 0..33; truncations and wire mutations of the raw transaction; wire mutations of the execution-block message and an execution-layer request grammar (malformed items and well-formed membership removals), an applied proposal being followed by the election block and one more; each delivered through CheckTx, ProcessProposal and FinalizeBlock in crash-contained worker processes"
+	r.Rule = "for four reachable states (fresh; right after an election with a proposer that has not accepted yet; busy: voted hashes, deposits, pending/processing/cancelling withdrawals, pending voter; a voter removal already queued): every single wire-level mutation (drop, duplicate, boundary integers, empty / +1 / -1 / bit-flipped / 33-byte / 1-byte strings, recursively two levels deep) of a well-formed instance of every relayer and bridge message, correctly signed so that it reaches the handler; vote bitmaps of every length 0..33; truncations and wire mutations of the raw transaction; wire mutations of the execution-block message and an execution-layer request grammar (malformed items and well-formed membership removals), an applied proposal being followed by the election block and one more; each delivered through CheckTx, ProcessProposal and FinalizeBlock in crash-contained worker processes"
 	r.Assumptions = []string{"a proposal rejected by ProcessProposal is not forced into FinalizeBlock (honest validators never finalise it; engine verdicts at finalisation are C09's subject)", "account sequences are not part of 'state exactly as it was'"}
 	self, err := os.Executable()
 	must(err)
-	states := []string{"fresh", "busy", "removal-queued"}
-	if r.Thorough() {
-		states = append(states, "elected")
-	}
+	// "elected": right after an election the new proposer has not accepted its role yet - what a
+	// failed transaction of its may leave behind includes that flag
+	states := []string{"fresh", "busy", "removal-queued", "elected"}
 	for _, state := range states {
 		w := c19State(state)
 		cases := c19Cases(w, state, r.Thorough())
